@@ -216,8 +216,13 @@ Definition upload_ops (final : str) (blocks : list (list N)) (oc : outcome) : li
                             end).
 
 (* the whole service call: None = the name is refused before any file operation *)
+(* the final name a client-supplied name resolves to: refused literally (`if name in (...): raise`), by FilePath.child, or by
+   the parent() test *)
+Definition putfile_final (cwd base name : str) : option str :=
+  if existsb (str_eqb name) putfile_refused then None else guarded putfile_guard cwd base name.
+
 Definition putfile (cwd base name : str) (blocks : list (list N)) (oc : outcome) : option (list op) :=
-  match guarded putfile_guard cwd base name with
+  match putfile_final cwd base name with
   | None => None
   | Some final => Some (upload_ops final blocks oc)
   end.
